@@ -506,10 +506,16 @@ class ModelGen:
                     cf, _c, _n = rng.choice(self.components)
                     comp.instances.append(M.Instance(fresh(rng, itaken, 'snake'),
                                                      M.Ref(list(cf), '.'.join(cf))))
+            if rng.random() < 0.25:
+                # a pass-through system: no instances, its own ports bound to each other
+                comp.instances = []
             for p in ports:
                 if comp.instances:
                     inst = rng.choice(comp.instances)
                     comp.bindings.append(M.Binding((p.name, None), (p.name, inst.name)))
+                elif len(ports) >= 2:
+                    other = rng.choice([q for q in ports if q is not p])
+                    comp.bindings.append(M.Binding((p.name, None), (other.name, None)))
         self._place(node, comp)
         ent = (node.fqn + [name], comp, node)
         if kind != 'foreign':
